@@ -361,7 +361,10 @@ struct Flow {
     hi: BTreeMap<u64, u64>,
     /// MAX_DATA values in the order this endpoint processed them
     md: Vec<u64>,
-    /// per stream: MAX_STREAM_DATA values in processing order
+    /// MAX_STREAM_DATA values in processing order, keyed by the stream id AS LOGGED: the repo's qlog writes
+    /// `StreamId::id()` (the per-type sequence number = wire id >> 2) for MAX_STREAM_DATA / STREAM_DATA_BLOCKED /
+    /// RESET_STREAM / STOP_SENDING but the wire id for STREAM frames, so streams 4k, 4k+2 (client as sender) or
+    /// 4k, 4k+3 (server as sender) share a key; `diagnose` only draws conclusions that hold whichever stream was meant
     msd: BTreeMap<u64, Vec<u64>>,
     /// per stream type ("bidirectional"/"unidirectional"): MAX_STREAMS values in processing order
     ms: BTreeMap<String, Vec<u64>>,
@@ -457,11 +460,15 @@ fn diagnose(pk: &[PktEv], plans: &[Plan], c: &Side, s: &Side) -> Vec<(String, St
                 continue;
             }
             let init = initial_stream_limit(ep, p.sid, peer);
-            let vals = me.msd.get(&p.sid).cloned().unwrap_or_default();
+            // keyed by sequence number (see `Flow::msd`): `mx` is an upper bound of the largest limit this stream was
+            // given, so "hi >= mx" is sound; "the last one is smaller" only when no other sending stream shares the key
+            let seq = p.sid >> 2;
+            let unique = !plans.iter().any(|q| q.sid != p.sid && q.sid >> 2 == seq && match q.kind { Kind::BidiEcho => true, Kind::UniC2S => ep == "client", Kind::UniS2C => ep == "server" });
+            let vals = me.msd.get(&seq).cloned().unwrap_or_default();
             let mx = vals.iter().copied().max().unwrap_or(0).max(init);
             let last = vals.last().copied();
-            let adv = pf.adv_msd.get(&p.sid).copied().unwrap_or(0);
-            if let Some(l) = last.filter(|l| *l < mx && hi >= *l) {
+            let adv = pf.adv_msd.get(&seq).copied().unwrap_or(0);
+            if let Some(l) = last.filter(|l| unique && *l < mx && hi >= *l) {
                 out.push(("stall:flow-control:stream".into(), format!("{ep} stopped sending on stream {} after {hi} of {} bytes: the last MAX_STREAM_DATA it processed ({l}) is smaller than an earlier one ({mx}) — a stale update lowered the stream send limit", p.sid, p.len)));
             } else if hi >= mx {
                 let why = if adv > mx { format!("the {peer_name} sent MAX_STREAM_DATA {adv} which never reached the {ep}") } else { format!("the {peer_name} never advertised more than {}", adv.max(init)) };
@@ -558,10 +565,10 @@ fn run(o: &Opts) {
                     }
                 }
                 // a stale update = one processed after a larger one
-                let stale = f.md.windows(2).filter(|w| w[1] < w[0]).count() as u64 + f.msd.values().map(|v| v.windows(2).filter(|w| w[1] < w[0]).count() as u64).sum::<u64>();
+                let stale = f.md.windows(2).filter(|w| w[1] < w[0]).count() as u64;
                 if stale > 0 {
-                    *totals.entry("stale_window_updates_processed".into()).or_insert(0) += stale;
-                    sink.branch("stale-window-update-processed");
+                    *totals.entry("stale_max_data_processed".into()).or_insert(0) += stale;
+                    sink.branch("stale-max-data-processed");
                 }
                 updates += (f.md.len() + f.msd.values().map(|v| v.len()).sum::<usize>() + f.ms.values().map(|v| v.len()).sum::<usize>()) as u64;
             }
